@@ -44,6 +44,8 @@ def model_check(sc, thorough, cmds):
         states += r.distinct
         trans += r.generated
         cmds.append(r.cmd)
+    # the permit accounting for up to 8 sources, any weight and unboundedly many restarts: inductive invariant by Apalache
+    cmds += vlib.apalache_inductive(sc, "FanInInd")
     for cfg in ("FanIn_devleak.cfg", "FanIn_devdouble.cfg"):
         r = vlib.tlc(sc, "FanIn", cfg, workers=8, timeout=3000)
         if not r.violated:
